@@ -62,7 +62,7 @@ func init() {
 	pt.badCfgPct = 0
 	suites["p-reset"] = pSuite(pt, []string{"p.twin.fresh"})
 	suites["p-large"] = func(r *rng, id string, cnt counters, emit func(line, out string)) ([]finding, bool) {
-		if r.chance(25) {
+		if r.chance(25) && id[len(id)-2:] != ".0" {
 			return genPLargeWrap(r, id, cnt, emit), true
 		}
 		e, d := genPLarge(r, id, cnt, emit)
